@@ -55,6 +55,8 @@ KINDS = [
     "item_err",
     "item_unset",
     "item_ok_flush_raises_after",
+    "batch_empty_ok",
+    "batch_empty_raise",
 ]
 
 
@@ -113,9 +115,9 @@ class Model(object):
             return ("val", ("task", ("iv", 0)))
         if k == "task_ctx_resume_fails":
             return ("exc", ("UserErr", ("resume",)))
-        if k == "batch_ok":
+        if k in ("batch_ok", "batch_empty_ok"):
             return ("val", None)
-        if k == "batch_raise":
+        if k in ("batch_raise", "batch_empty_raise"):
             return ("exc", ("UserErr", ("flush",)))
         if k in ("item_ok", "item_ok_flush_raises_after"):
             return ("val", ("iv", 0))
@@ -216,6 +218,13 @@ def make_object(kind, env):
             return ("task", v)
 
         return f.asynq()
+    if kind in ("batch_empty_ok", "batch_empty_raise"):
+        # a batch nobody added anything to
+        C10Item(rt, "ok")  # (defines the classes)
+        b = _classes["batch"](rt)
+        b.mode = "raise" if kind == "batch_empty_raise" else "ok"
+        b.env = env
+        return b
     if kind in ("batch_ok", "batch_raise"):
         it = C10Item(rt, "ok")
         C10Item(rt, "ok")
@@ -280,6 +289,7 @@ def C10Item(rt, mode):
                 self.mode = mode
 
         _classes["item"] = Item
+        _classes["batch"] = Batch
     return _classes["item"](rt, mode)
 
 
@@ -440,9 +450,9 @@ def run_sequence(kind, seq):
     if not viol:
         if sorted(notes, key=repr) != sorted(m.expected_notes, key=repr):
             viol.append(("subscriber-notifications", {"expected": sorted(m.expected_notes, key=repr), "observed": sorted(notes, key=repr)}))
-        if env["computes"] != m.computes and kind not in ("batch_ok", "batch_raise", "item_ok", "item_err", "item_unset", "item_ok_flush_raises_after", "task_item"):
+        if env["computes"] != m.computes and kind not in ("batch_ok", "batch_raise", "batch_empty_ok", "batch_empty_raise", "item_ok", "item_err", "item_unset", "item_ok_flush_raises_after", "task_item"):
             viol.append(("computation-run-count", {"expected": m.computes, "observed": env["computes"]}))
-        if kind in ("batch_ok", "batch_raise", "item_ok", "item_err", "item_unset", "item_ok_flush_raises_after") and env["computes"] > 1:
+        if kind in ("batch_ok", "batch_raise", "batch_empty_ok", "batch_empty_raise", "item_ok", "item_err", "item_unset", "item_ok_flush_raises_after") and env["computes"] > 1:
             viol.append(("computation-run-count", {"expected": "<=1 flush body", "observed": env["computes"]}))
     return viol, bool(completions and observed_after), len(notes)
 
